@@ -5,7 +5,7 @@
    Each execution owns its state ([init] per run): concurrent awaits are independent runs.
    PARTIAL: the event loop itself is not modelled; liveness of sibling coroutines is monitored. *)
 From Coq Require Import List.
-From Tawazi Require Import Graph Sched SchedInv SchedGhost Dataflow DataflowFacts SameNodes SchedAsync.
+From Tawazi Require Import Graph Sched SchedInv SchedGhost Dataflow DataflowFacts SameNodes SchedAsync Concurrent ConcurrentFacts.
 Import ListNotations.
 
 Section C17.
@@ -53,3 +53,51 @@ Theorem C17_loop_blocked_only_by_threads (c : cfg) s l s' :
   (exists m dones x, l = LWait KC m dones /\ In x (conc s) /\ c_res c x = RThread).
 Proof. exact (loop_blocked_only_by_threads c s l s'). Qed.
 Print Assumptions C17_loop_blocked_only_by_threads.
+
+(* CONCURRENT AWAITS OF ONE DAG (Concurrent.v): any number of executions of one DAG, each started from its own
+   start map (DAG-level setup results + that call's arguments, Args.bind / Cache.start_map), interleaved in ANY
+   way: what call i has computed is the denotation of ITS OWN start map, and if it finished it computed all
+   of it - whatever the other calls do (they may fail, stall or finish). *)
+Section Calls.
+Variable val : Type.
+Variable vnone : val.
+Variable truthy : val -> bool.
+Variable index : val -> nat -> option val.
+Variable tbl : nat -> nodeT val.
+Variable c : cfg.
+
+Theorem C17_concurrent_calls_isolated starts ils g' i r0 s res :
+  wf c -> consistent val tbl c r0 ->
+  grun val vnone truthy index tbl c (ginit val c starts) ils = Some g' ->
+  nth_error starts i = Some r0 -> nth_error g' i = Some (s, res) ->
+  (forall n v, lookup val res n = Some v -> den val vnone truthy index tbl c r0 n = Some v) /\
+  (pc s = PFinished -> forall n, lookup val res n = den val vnone truthy index tbl c r0 n).
+Proof. exact (concurrent_calls_isolated val vnone truthy index tbl c starts ils g' i r0 s res). Qed.
+
+(* a step of one call leaves the state and the results of every other call untouched *)
+Theorem C17_step_of_one_call_frames_the_others g j l g' i :
+  gstep val vnone truthy index tbl c g (j, l) = Some g' -> i <> j -> nth_error g' i = nth_error g i.
+Proof. exact (gstep_frame val vnone truthy index tbl c g j l g' i). Qed.
+
+(* the projection of a global run onto one call is a run of the single-call scheduler: every theorem about
+   one execution (C02-C06, C09, C14) holds of each concurrent one *)
+Theorem C17_projection_is_a_run ils g g' i sr :
+  grun val vnone truthy index tbl c g ils = Some g' -> nth_error g i = Some sr ->
+  exists sr', nth_error g' i = Some sr' /\ vrun val vnone truthy index tbl c sr (proj i ils) = Some sr'.
+Proof. exact (grun_proj val vnone truthy index tbl c ils g g' i sr). Qed.
+
+(* non-vacuity of the interleaving semantics: single-call runs accepted one by one are accepted as a global
+   run, ending in the same per-call states *)
+Theorem C17_every_family_of_runs_is_an_interleaving runs i (g : gstate val) (finals : list (call val)) :
+  length runs = length finals ->
+  (forall k ls, nth_error runs k = Some ls -> exists sr sr', nth_error g (i + k) = Some sr /\ nth_error finals k = Some sr' /\
+      vrun val vnone truthy index tbl c sr ls = Some sr') ->
+  exists g', grun val vnone truthy index tbl c g (serial i runs) = Some g' /\
+    (forall k sr', nth_error finals k = Some sr' -> nth_error g' (i + k) = Some sr') /\
+    (forall m, m < i -> nth_error g' m = nth_error g m).
+Proof. exact (serial_accepted val vnone truthy index tbl c runs i g finals). Qed.
+End Calls.
+Print Assumptions C17_concurrent_calls_isolated.
+Print Assumptions C17_step_of_one_call_frames_the_others.
+Print Assumptions C17_projection_is_a_run.
+Print Assumptions C17_every_family_of_runs_is_an_interleaving.
